@@ -188,6 +188,8 @@ pub trait Hamiltonian<M: Math>: Sized {
                     &&& out.view().idx == start.view().idx + dir_sign(dir)
                     &&& out.view().e0 == start.view().e0
                     &&& final(collector).traj() == old(collector).traj().insert(out.view().idx, out.view())
+                    // an accepted state has an energy error within the limit, measured against the baseline handed in
+                    &&& out.view().energy - energy_baseline.r() <= max_energy_error.r()
                 },
                 LeapfrogResult::Divergence(_) => final(collector).traj() == old(collector).traj(),
                 LeapfrogResult::Err(e) => final(collector).traj() == old(collector).traj() && !e.recoverable(),
